@@ -276,14 +276,14 @@ func mutateJSON(t *rapid.T, base []byte, target string) (string, []byte) {
 		if kind == "json-multi" {
 			k = rapid.SampledFrom(jsonMuts[:len(jsonMuts)-1]).Draw(t, "sub")
 		}
-		applyJSONMut(t, root, k)
+		applyJSONMut(t, root, k, target)
 	}
 	var sb strings.Builder
 	root.write(&sb)
 	return kind, []byte(sb.String())
 }
 
-func applyJSONMut(t *rapid.T, root *jnode, kind string) {
+func applyJSONMut(t *rapid.T, root *jnode, kind, target string) {
 	all := slots(root, nil)
 	if len(all) == 0 {
 		return
@@ -361,7 +361,13 @@ func applyJSONMut(t *rapid.T, root *jnode, kind string) {
 		}
 	case "json-deepnest":
 		if s, ok := pick(nil); ok {
-			d := rapid.SampledFrom([]int{50, 500, 5000, 9990, 10001, 20000}).Draw(t, "depth")
+			depths := []int{50, 500, 5000, 9990, 10001, 20000}
+			if target == tMetrics {
+				// gjson's Result.Value() is quadratic in nesting depth (0.4 s at depth 16k, 2 s at 32k, measured);
+				// the quick tier stays far below the 5 s budget so that load cannot turn slowness into a "hang"
+				depths = []int{50, 500, 4000}
+			}
+			d := rapid.SampledFrom(depths).Draw(t, "depth")
 			open, close := "[", "]"
 			if rapid.Bool().Draw(t, "obj") {
 				open, close = `{"a":`, "}"
